@@ -23,7 +23,7 @@ fn read_link_target(file_info: &WalkEntry) -> Option<PathBuf> {
                     file_info.path().display(),
                     err
                 )
-                .unwrap();
+                .ok();
             }
 
             None
